@@ -609,6 +609,41 @@ func runC16(ctx *common.Ctx) error {
 				}
 			}
 		}
+		// boundary shapes relative to this view: ranges that start inside the view and end just beyond it (both orders),
+		// a valid member followed by one beyond, the last message and its successor
+		if n := len(uids); n >= 1 {
+			rel := []string{
+				fmt.Sprintf("1:%d", n+1), fmt.Sprintf("%d:%d", n+2, n), fmt.Sprintf("%d,%d", n, n+1),
+				fmt.Sprintf("1:%d,%d:%d", n, n+1, n+3), fmt.Sprintf("%d:%d", n, n+1), fmt.Sprintf("%d:*", n+1), fmt.Sprintf("*:%d", n+1),
+			}
+			for _, kind := range []string{"FETCH", "STORE", "SEARCH", "UIDSEARCH", "COPY"} {
+				for _, r := range rel {
+					if _, err := runCase(name, uids, kind, parseSet(r)); err != nil {
+						return err
+					}
+				}
+			}
+			// UID sets around missing UIDs: a missing UID first, in the middle and last of a union
+			if maxuid >= 2 {
+				missing := 0
+				for u := 1; u <= maxuid+1; u++ {
+					if posOf(uids, u) < 0 {
+						missing = u
+						break
+					}
+				}
+				for _, kind := range []string{"UIDFETCH", "UIDSTORE", "UIDCOPY", "UIDSEARCHUID", "SEARCHUID"} {
+					for _, r := range []string{
+						fmt.Sprintf("%d,%d", missing, uids[0]), fmt.Sprintf("%d,%d,%d", uids[0], missing, uids[len(uids)-1]),
+						fmt.Sprintf("%d,%d", uids[len(uids)-1], missing), fmt.Sprintf("%d,%d:%d", missing, uids[0], maxuid),
+					} {
+						if _, err := runCase(name, uids, kind, parseSet(r)); err != nil {
+							return err
+						}
+					}
+				}
+			}
+		}
 		for i := 0; i < perView; i++ {
 			kind := kinds[rng.Pick(len(kinds))]
 			uidMode := (strings.HasPrefix(kind, "UID") && kind != "UIDSEARCH") || kind == "SEARCHUID"
